@@ -9,7 +9,7 @@ ENGINE = 'simnet'
 BOUNDS = {'quick': dict(configs='(3,1) PRSS on/off, (4,1) PRSS on', senders='all non-empty subsets (list form) and int form',
                         receivers='all subsets incl. empty, int form incl. 0, range form', thresholds='t..2t',
                         transfer='6 sender/receiver graphs in dict and pair-list form, sender/receiver subsets'),
-          'thorough': dict(configs='(2,0),(3,1),(4,1),(5,2) x PRSS on/off', senders='all non-empty subsets', receivers='all subsets',
+          'thorough': dict(configs='(2,0),(3,1),(4,1) x PRSS on/off with all subsets; (5,2) x PRSS on/off sampled as in the quick tier', senders='all non-empty subsets', receivers='all subsets',
                            thresholds='t..2t', transfer='all bipartite subsets for m<=3, 6 graphs otherwise')}
 OUTSIDE = ['m > 5', 'payload types other than secure integers / field elements / picklable tuples', 'secure floats (C05)']
 ASSUMPTIONS = ['serialisation round trip (C22)', 'canonical schedule (C08 covers schedules)']
@@ -177,14 +177,15 @@ def instances(tier):
     for (m, t, prss) in cfgs:
         send_specs = [0, m - 1] + [s for s in _subsets(m, nonempty=True)]
         recv_specs = [None, 0, m - 1, range(1, m)] + _subsets(m)
-        if tier == 'quick':
+        sampled = tier == 'quick' or m >= 5        # m = 5: 31 x 36 subset pairs x thresholds do not fit the thorough budget: sampled like the quick tier
+        if sampled:
             send_specs = [0, m - 1, [1], [0, 2], list(range(m)), [2, 0]]
             recv_specs = [None, 0, 1, [], [0], [1, 2], list(range(m)), range(1, m)]
         for s in send_specs:
             for r in recv_specs:
-                thrs = [None] if tier == 'quick' and not (s == 0 and r in (None, 0)) else [None] + list(range(t, 2 * t + 1))
+                thrs = [None] if sampled and not (s == 0 and r in (None, 0)) else [None] + list(range(t, 2 * t + 1))
                 for thr in thrs:
-                    if tier == 'quick' and (send_specs.index(s) + recv_specs.index(r)) % 3 != 0 and not (r == 0 or r == [] or s == 0):
+                    if sampled and (send_specs.index(s) + recv_specs.index(r)) % 3 != 0 and not (r == 0 or r == [] or s == 0):
                         continue
                     out.append(Inst(f'io[m={m},t={t},prss={int(prss)},S={s},R={r},thr={thr}]', h_io,
                                     dict(m=m, t=t, prss=prss, senders=s, receivers=r if not isinstance(r, range) else r, threshold=thr),
